@@ -138,10 +138,10 @@ func genDigits(t *rapid.T, n int) *big.Int {
 func genCoef(t *rapid.T) *big.Int { return new(big.Int).Set(genCoefShared(t)) }
 
 func genCoefShared(t *rapid.T) *big.Int {
-	switch ir(t, 0, 16, "coefKind") {
+	switch ir(t, 0, 17, "coefKind") {
 	case 9:
 		return genWordStructured(t)
-	case 10:
+	case 10, 17:
 		return genPow2Lead(t)
 	case 0:
 		return new(big.Int).Sub(ref.Cmax, bi(int64(ir(t, 0, 3, "cmaxOff"))))
@@ -224,7 +224,10 @@ func genWordStructured(t *rapid.T) *big.Int {
 // 6.2771017…, 1.1579208… and, where the code doubles or halves first, their halves and doubles. A guard that is
 // off by a sliver there (0x1999… for 0x18ff…) fails only for mantissas within ~1e-19 of such a boundary.
 func genPow2Lead(t *rapid.T) *big.Int {
-	k := []uint{63, 64, 65, 96, 113, 114, 127, 128, 129, 160, 191, 192, 193, 224, 255, 256, 257, 320, 384}[ir(t, 0, 18, "pow2k")]
+	k := []uint{64, 128, 192, 256}[ir(t, 0, 3, "pow2main")]
+	if ir(t, 0, 2, "pow2aux") == 0 {
+		k = []uint{63, 65, 96, 113, 114, 127, 129, 160, 191, 193, 224, 255, 257, 320, 384}[ir(t, 0, 14, "pow2k")]
+	}
 	v := new(big.Int).Lsh(ref.One, k)
 	switch ir(t, 0, 5, "pow2mul") {
 	case 0:
@@ -232,12 +235,14 @@ func genPow2Lead(t *rapid.T) *big.Int {
 	case 1:
 		v.Quo(new(big.Int).Mul(v, ref.Pow10(40)), big.NewInt(3)) // a third, digits kept by scaling first
 	}
-	n := 35
+	// any length matters: the accumulators are filled by multiplying by 10^19, 10^4 and 10 in turn, so a
+	// coefficient of n digits reaches the boundary after 35-n .. 77-n further digits
+	n := ir(t, 15, 35, "len")
 	switch ir(t, 0, 3, "pow2len") {
 	case 0:
 		n = 34
 	case 1:
-		n = ir(t, 19, 35, "len")
+		n = 35
 	}
 	d := ref.DecLen(v)
 	if d > n {
